@@ -209,6 +209,44 @@ static void ph_case(uint64_t i, void *ctx)
     if (had_port && !had_host) mc_nontrivial();
     mc_outcome(mc_hash_str(t1));
 }
+/* ---- part D: one long component (lengths around 1024 and 4096, the sizes of plausible scratch buffers), the others short */
+static const int LONGS[] = { 255, 256, 1021, 1022, 1023, 1024, 1025, 4095, 4096, 4097, 9000 };
+#define NLONGS ((int) (sizeof LONGS / sizeof LONGS[0]))
+static void lc_desc(uint64_t i, void *ctx, char *b, size_t n)
+{
+    static const char *w[6] = { "user", "passwd", "host", "path", "query", "user and passwd together" };
+    (void) ctx; snprintf(b, n, "url http://u:p@h:8/p?q with %s of %d characters: parse, unparse, re-parse", w[i % 6], LONGS[i / 6]);
+}
+static void lc_case(uint64_t i, void *ctx)
+{
+    int which = (int) (i % 6), n = LONGS[i / 6]; (void) ctx;
+    char *big = malloc((size_t) n + 2), *big2 = malloc((size_t) n + 2); memset(big, 'x', (size_t) n); big[n] = 0; memset(big2, 'y', (size_t) n); big2[n] = 0;
+    if (which == 3) big[0] = '/';
+    const char *user = which == 0 || which == 5 ? big : "u", *pass = which == 1 ? big : (which == 5 ? big2 : "p"), *host = which == 2 ? big : "h", *path = which == 3 ? big : "/p", *query = which == 4 ? big : "q";
+    size_t cap = (size_t) 2 * (size_t) n + 64; char *text = malloc(cap);
+    snprintf(text, cap, "http://%s:%s@%s:8%s?%s", user, pass, host, path, query);
+    const char *shape = n < 1023 ? "long component below 1023" : "long component of 1023 or more";
+    mc_set_shape(shape);
+    g_lk = LK_NONE; g_word = "http"; g_lookups = 0;
+    spif_url_t u = parse(text, 0xA5);
+    if (!u) { FAIL("spif_url_new_from_ptr", "model:return", shape, "returned NULL"); goto done; }
+    const char *exp[7] = { "http", user, pass, host, "8", path, query }, *got[7];
+    components(u, got);
+    for (int k = 0; k < 7; k++) if (!same(exp[k], got[k])) { FAIL("spif_url_parse", "model:component", shape, "%s has %zu characters, expected %zu", CNAME[k], got[k] ? strlen(got[k]) : 0, strlen(exp[k])); break; }
+    if (!spif_url_unparse(u)) FAIL("spif_url_unparse", "model:return", shape, "unparse returned FALSE");
+    { const char *ut = SPIF_STR(u)->s ? (char *) SPIF_STR(u)->s : "";
+      if (strcmp(ut, text)) { size_t d = 0; while (ut[d] && ut[d] == text[d]) d++; FAIL("spif_url_unparse", "model:canonical-text", shape, "unparse gives %zu characters, the canonical form has %zu; first difference at offset %zu", strlen(ut), strlen(text), d); }
+      spif_url_t v = parse(ut, 0x5A);
+      if (!v) FAIL("spif_url_new_from_ptr", "model:return", shape, "re-parse returned NULL");
+      else { const char *g2[7]; components(v, g2);
+          for (int k = 0; k < 7; k++) if (!same(exp[k], g2[k])) { FAIL("spif_url_parse", "model:round-trip", shape, "after unparse+parse %s has %zu characters, expected %zu", CNAME[k], g2[k] ? strlen(g2[k]) : 0, strlen(exp[k])); break; }
+          spif_url_del(v); } }
+    spif_url_del(u);
+done:
+    free(big); free(big2); free(text);
+    mc_nontrivial();
+    mc_outcome(i);
+}
 int main(int argc, char **argv)
 {
     mc_init("C14", argc, argv);
@@ -219,6 +257,7 @@ int main(int argc, char **argv)
             "port without host: proto{http,tcp,zz}:path{/p,/,/p/q}[?q] x 5 lookup outcomes, and the same bare paths with set_port(8)", N);
     mc_e2_level("tuples", 1, NTUP, tup_case, tup_desc, NULL);
     mc_e2_level("port_without_host", 1, NPH, ph_case, ph_desc, NULL);
+    mc_e2_level("long_component", 9000, (uint64_t) NLONGS * 6, lc_case, lc_desc, NULL);
     for (g_len = 0; g_len <= N; g_len++)
         if (!mc_e2_level("strings", g_len, mc_words_of_len(6, g_len) * NLK, str_case, str_desc, NULL)) break;
     return mc_finish();
